@@ -152,3 +152,20 @@ Example C03_source_tie_nonvacuous :
   KernelsHH.gen_hh_max_count_row key keqb 3 [97;0] 5 1 [97;0] 1 = 5 /\
   KernelsHH.gen_hh_max_count_row key keqb 3 [97;0] 5 2 [97;0] 1 = 3.
 Proof. vm_compute. repeat split; discriminate. Qed.
+
+(* ---------------- source tie (class-level add wrapper) ----------------
+   HeavyHitters.add as regenerated from the source AST on this run (generated/KernelsApi.v): the multiplicity it hands
+   to _add is the clamp at uint_maxval of the model's hh_add (the kernel's uint32 parameter then truncates it) *)
+From Sketchnu Require KernelsApi KernelTieApiHH.
+Theorem C03_api_source_tie :
+  (forall v, KernelsApi.gen_api_hh_add_value v hh_cap = Some (Z.min v hh_cap)) /\
+  KernelsApi.gen_api_hh_add_writes_back = false /\
+  (forall depth max_key_len bucket (s : sketch) (k : key) (v : Z),
+     option_map (fun v' => hh_add_raw depth max_key_len bucket s k (wrap32 v')) (KernelsApi.gen_api_hh_add_value v hh_cap)
+       = Some (hh_add depth max_key_len bucket s k v)).
+Proof. exact KernelTieApiHH.tie_api_hh. Qed.
+Print Assumptions C03_api_source_tie.
+
+Example C03_api_source_tie_nonvacuous :
+  map (fun v => KernelsApi.gen_api_hh_add_value v hh_cap) [1; 2^32 - 1; 2^32 + 2] = [Some 1; Some (2^32 - 1); Some (2^32 - 1)].
+Proof. vm_compute. reflexivity. Qed.
